@@ -220,6 +220,13 @@ func main() {
 						msgs = append(msgs, fmt.Sprintf("entity statistics differ after load: source %+v loaded %+v", a, b))
 					}
 				}
+				// a sibling world loaded from the same dump (capacity 1: the dump is at least as large as its pool) takes part in
+				// the lockstep operations: worlds restored from one dump share nothing
+				w5 := ecs.NewWorld(1)
+				sibling := try(func() { w5.Unsafe().LoadEntities(&dump) }) == nil
+				if !sibling {
+					msgs = append(msgs, "loading the dump into a second world panicked")
+				}
 				// lockstep creations and removals
 				n := 1 + r.Intn(200)
 				var created, removedLockstep []ecs.Entity
@@ -239,6 +246,13 @@ func main() {
 								break
 							}
 						}
+						if sibling {
+							var c []ecs.Entity
+							w5.NewEntities(k, func(e ecs.Entity) { c = append(c, e) })
+							if fmt.Sprint(c) != fmt.Sprint(b) {
+								msgs = append(msgs, fmt.Sprintf("batch creation %d: two worlds loaded from the same dump return %v and %v", i, b, c))
+							}
+						}
 						created = append(created, a...)
 						res.Counters["lockstep-creations"] += int64(k)
 					case 1: // removal in both
@@ -252,6 +266,11 @@ func main() {
 							if p1 != nil || p2 != nil {
 								msgs = append(msgs, fmt.Sprintf("lockstep removal of %v: source panic %v, loaded panic %v", e, p1, p2))
 							}
+							if sibling {
+								if p3 := try(func() { w5.RemoveEntity(e) }); p3 != nil {
+									msgs = append(msgs, fmt.Sprintf("lockstep removal of %v panics in the second world loaded from the same dump: %v", e, p3))
+								}
+							}
 							res.Counters["lockstep-removals"]++
 						}
 					default:
@@ -259,6 +278,11 @@ func main() {
 						b := w2.NewEntity()
 						if a != b {
 							msgs = append(msgs, fmt.Sprintf("creation %d after load: source returns %v, loaded world %v", i, a, b))
+						}
+						if sibling {
+							if c := w5.NewEntity(); c != b {
+								msgs = append(msgs, fmt.Sprintf("creation %d: two worlds loaded from the same dump return %v and %v", i, b, c))
+							}
 						}
 						created = append(created, a)
 						res.Counters["lockstep-creations"]++
@@ -268,6 +292,35 @@ func main() {
 					if !w2.Alive(e) || !d.W.Alive(e) {
 						msgs = append(msgs, fmt.Sprintf("entity %v created after load is not alive in both worlds", e))
 						break
+					}
+				}
+				// handles the target world issued before its own Reset stay dead while the loaded world grows (IDs not in use)
+				if len(msgs) == 0 {
+					inUse := 2 + w2.Stats().Entities.Total
+					for _, h := range tmp {
+						if int(h.ID()) >= inUse && w2.Alive(h) {
+							msgs = append(msgs, fmt.Sprintf("handle %v, removed by the target world's Reset before the load, is reported alive after %d further creations (pool holds %d IDs)", h, len(created), inUse))
+							break
+						}
+					}
+				}
+				// the dump is the caller's: loading it and working with the loaded world leaves it usable - a second world
+				// loaded from it now reproduces the statuses as of dump time, too
+				if len(msgs) == 0 {
+					w4 := ecs.NewWorld(caps...)
+					if p := try(func() { w4.Unsafe().LoadEntities(&dump) }); p != nil {
+						msgs = append(msgs, fmt.Sprintf("loading the same dump a second time panicked: %v", p))
+					} else {
+						res.Counters["second-loads-of-a-dump"]++
+						for _, s := range atDump {
+							if w4.Alive(s.h) != s.alive {
+								msgs = append(msgs, fmt.Sprintf("second world loaded from the same dump: handle %v Alive=%v, at dump time %v", s.h, w4.Alive(s.h), s.alive))
+								break
+							}
+						}
+						if b := w4.Stats().Entities; b.Used != usedAtDump {
+							msgs = append(msgs, fmt.Sprintf("second world loaded from the same dump reports %d alive entities, %d were alive at dump time", b.Used, usedAtDump))
+						}
 					}
 				}
 				// liveness of every handle known so far (as of dump time, removed in lockstep) agrees between the worlds,
